@@ -135,10 +135,37 @@ pub fn generate(seed: u64, idx: u64) -> Scenario {
         1 | 2 => rng.range(40, 150),
         _ => rng.range(150, 400),
     };
+    // documents go quiet at different times: the last write to a retired document is followed by a
+    // long tail of traffic for the others (its last diagnostics must still be the final ones)
+    let retire: Vec<usize> = uris
+        .iter()
+        .enumerate()
+        .map(|(i, _)| if i == 0 || rng.chance(600) { usize::MAX } else { rng.range(burst / 8, burst) })
+        .collect();
+    let stretchy = rng.chance(500);
+    let mut notif_only = 0usize;
     while s.steps.len() < burst {
-        let uri = rng.pick(&uris).clone();
+        let ui = rng.below(uris.len());
+        let uri = uris[ui].clone();
         let open = s.text(&uri).cloned();
-        match (open, rng.below(20)) {
+        let mut roll = rng.below(20);
+        // stretches of notifications only: a request makes the reader wait for the broker, so the
+        // document queue only grows long while no request is in between
+        if notif_only == 0 && rng.chance(if stretchy { 40 } else { 0 }) {
+            notif_only = rng.range(17, 90);
+        }
+        if notif_only > 0 {
+            notif_only -= 1;
+            roll = if open.is_some() { rng.below(8) } else { rng.below(10) };
+        }
+        if s.steps.len() >= retire[ui] {
+            // retired: no more writes, the occasional read
+            if rng.chance(800) {
+                continue;
+            }
+            roll = if open.is_some() { 8 } else { 19 };
+        }
+        match (open, roll) {
             (None, 0..=9) => {
                 let lines = rng.range(0, 5);
                 let t = doc_text(&mut rng, &mut counter, lines);
@@ -499,13 +526,19 @@ pub fn judge(sc: &Scenario) -> Judgement {
         return j;
     }
     j.comparisons += notes.len() as u64;
-    if notes.len() != want_diag.len() {
-        j.violate(
-            ID,
-            "diagnostics-count",
-            "diagnostics-count".into(),
-            format!("{} publishDiagnostics for {} effective open/change notifications", notes.len(), want_diag.len()),
-        );
+    // The shipped design publishes exactly once per effective write, in write order; when that is
+    // what happened every publication is compared with the content at its point. The property
+    // itself, however, only demands that publications describe contents the document really had,
+    // in order, and that the last one describes the final content - a server that coalesces or
+    // clears on close still conforms - so anything else is judged by those clauses only.
+    let aligned = notes.len() == want_diag.len()
+        && notes
+            .iter()
+            .zip(want_diag.iter())
+            .all(|((_, p), (u, _))| p.get("uri").and_then(Value::as_str) == Some(u.as_str()));
+    j.probe("publications aligned one-to-one with the writes", aligned as u64);
+    if !aligned {
+        relaxed_diagnostics(sc, &rec, &notes, &want_diag, &mut j);
         return j;
     }
     let mut last_per_uri: BTreeMap<&String, usize> = BTreeMap::new();
@@ -555,6 +588,121 @@ pub fn judge(sc: &Scenario) -> Judgement {
         }
     }
     j
+}
+
+/// The diagnostics clauses exactly as the property states them (used when publications are not
+/// one per write): per document, every publication describes a content the document held, in
+/// write order; the last one describes the final content (or clears a closed document).
+fn relaxed_diagnostics(
+    sc: &Scenario,
+    rec: &runner::RunRecord,
+    notes: &[(&String, &Value)],
+    want_diag: &[(String, String)],
+    j: &mut Judgement,
+) {
+    let mut versions: BTreeMap<&str, Vec<&String>> = BTreeMap::new();
+    for (u, t) in want_diag {
+        versions.entry(u.as_str()).or_default().push(t);
+    }
+    let mut closed_ever: BTreeMap<&str, bool> = BTreeMap::new();
+    let mut open_at_end: BTreeMap<&str, bool> = BTreeMap::new();
+    for st in &sc.script {
+        match &st.op {
+            ClientOp::Open { uri, .. } => {
+                open_at_end.insert(uri.as_str(), true);
+            }
+            ClientOp::Close { uri } => {
+                closed_ever.insert(uri.as_str(), true);
+                open_at_end.insert(uri.as_str(), false);
+            }
+            ClientOp::Exit => break,
+            _ => {}
+        }
+    }
+    let mut pubs: BTreeMap<String, Vec<Value>> = BTreeMap::new();
+    for (_, p) in notes {
+        let uri = p.get("uri").and_then(Value::as_str).unwrap_or("").to_string();
+        let mut d = p.get("diagnostics").cloned().unwrap_or(Value::Null);
+        strip_nulls(&mut d);
+        pubs.entry(uri).or_default().push(d);
+    }
+    for (uri, ps) in &pubs {
+        let Some(vs) = versions.get(uri.as_str()) else {
+            j.violate(
+                ID,
+                "diagnostics-uri",
+                "diagnostics-uri".into(),
+                format!("publishDiagnostics for {uri}, a document that was never written to"),
+            );
+            return;
+        };
+        let want: Vec<Value> = vs.iter().map(|t| expected_diagnostics(t)).collect();
+        let empty = Value::Array(vec![]);
+        let mut cur = 0usize;
+        for (n, p) in ps.iter().enumerate() {
+            match (cur..want.len()).find(|&i| &want[i] == p) {
+                Some(i) => cur = i,
+                None => {
+                    if *p == empty && closed_ever.get(uri.as_str()).copied().unwrap_or(false) {
+                        continue; // clearing the diagnostics of a closed document
+                    }
+                    // the analysis (C01), not the ordering, is off if this is what the server's
+                    // own document with the right text yields
+                    let own = rec.doc_obs.iter().any(|o| {
+                        &o.uri == uri
+                            && vs.iter().any(|t| **t == o.doc.text)
+                            && super::c01::diag_json_pub(&o.doc).as_ref() == Some(p)
+                    });
+                    if own {
+                        j.notes.push(format!("other-property=C01 a publication for {uri} differs from the fresh analysis of the same text"));
+                        continue;
+                    }
+                    j.violate(
+                        ID,
+                        "diagnostics-content",
+                        "diagnostics-describe-other-text".into(),
+                        format!(
+                            "publication #{n} for {uri} describes no content that document held at or after the content of the previous publication (stale, foreign or out of order): {}",
+                            short(&p.to_string())
+                        ),
+                    );
+                    return;
+                }
+            }
+        }
+    }
+    for (uri, vs) in &versions {
+        let fin = expected_diagnostics(vs.last().unwrap());
+        let last = pubs.get(*uri).and_then(|p| p.last());
+        let open = open_at_end.get(uri).copied().unwrap_or(false);
+        let ok = match last {
+            Some(l) => *l == fin || (!open && *l == Value::Array(vec![])),
+            None => false,
+        };
+        if !ok {
+            let own = last.map_or(false, |l| {
+                rec.doc_obs.iter().rev().find(|o| o.uri == **uri).map_or(false, |o| {
+                    &o.doc.text == *vs.last().unwrap() && super::c01::diag_json_pub(&o.doc).as_ref() == Some(l)
+                })
+            });
+            if own {
+                j.notes.push(format!("other-property=C01 the last publication for {uri} differs from the fresh analysis of the same text"));
+                continue;
+            }
+            j.violate(
+                ID,
+                "last-diagnostics",
+                "last-diagnostics".into(),
+                format!(
+                    "the last diagnostics published for {uri} do not describe its final content ({}): got {} expected {}",
+                    tail(vs.last().unwrap()),
+                    last.map_or("nothing".to_string(), |l| short(&l.to_string())),
+                    short(&fin.to_string())
+                ),
+            );
+            return;
+        }
+    }
 }
 
 fn strip_nulls(v: &mut Value) {
